@@ -65,6 +65,8 @@ var ctxKinds = []ctxKind{
 	{"TAG", "TAG @g", "", true, false},
 	{"Tags", "Tags @g", "", true, false},
 	{"OperationId", "OperationId op", "", true, false},
+	// (appended: the indexes of the forms above are part of the replay files)
+	{"GET", `GET ""`, "", true, false}, // an empty quoted path is no path: the method belongs to the URL
 }
 
 func cset(ss ...string) map[string]bool {
@@ -510,7 +512,7 @@ func TestC11(t *testing.T) {
 			}
 		}
 		if c11Enum.RunEnum(t, next) {
-			ev.Exhaustive(fmt.Sprintf("all sequences of <= %d items over %d symbols (36 directive forms x explicit/implicit, ')')", depth, len(alpha)), true)
+			ev.Exhaustive(fmt.Sprintf("all sequences of <= %d items over %d symbols (37 directive forms x explicit/implicit, ')')", depth, len(alpha)), true)
 		}
 		ev.Extra("enumerated_sequences", total)
 	})
